@@ -232,6 +232,9 @@ def analyze_method(job, sdl, schema, pkg: Package, rt: PkgRuntime, mi, modes, kn
                 if ent is not None:
                     sig["directive_site"] = "fragment" if ent[2].fragcond else "field"
                     sig["selected_via"] = ez.via_class(ctx, ent[2])
+                cn = c["node"]
+                if len([e for e in (cn.entries or []) if e[1].selection_set is not None]) > 1 and cn.parent is not None:
+                    sig["parent_key_selected_repeatedly"] = True
                 block = ent[0] if ent is not None else z3.Not(z3.And(c["node"].live, c["node"].rt == c["variant"]))
             else:
                 n = c["node"]
